@@ -216,6 +216,28 @@ PROPS = {
         ],
         'not_covered': ['that subscription messages of one peer are processed in per-connection order, and the race between the PUB reader task and send (concurrency)', 'XPUB handing every subscription message to the application verbatim (XPubSocket::recv is under contract in unit routing for C14 only)', 'what happens on the Err path of send (a fatal writer error aborts the traversal: subscribers not yet visited get nothing)'],
     },
+    'C13': {
+        'units': ['sub'],
+        'scope': [
+            # subscribe / unsubscribe: the set changes, every registered peer is attempted, `agrees` is preserved
+            ('sub', r'^SubSocket::(subscribe|unsubscribe|process_subs)$', A, None),
+            # late joiners: told the whole current set, then registered (the `.unwrap()` is modelled as return-only-if-Ok)
+            ('sub', r'^SubSocketBackend::peer_connected$', A, None),
+            ('sub', r'^tmpl::lemma_(told|announced|tagged|tags)', A, None),
+        ],
+        'kani': {},
+        'assumptions': [
+            'sequential scope: per-call contracts over an owned model (Arc as Box, Mutex as plain ownership); a peer that connects CONCURRENTLY with a subscribe call is outside what these contracts decide',
+            'scc traversal (begin_async / next_async / OccupiedEntry) is the assumed cursor model of prelude/socket_standins.rs: every registered peer is visited exactly once, changes through the entry are changes of the table',
+            'FramedWrite::send: Ok means everything buffered plus the item is on the wire; Err means nothing new is on the wire; `tried` counts the calls (ASSUMED stand-in for asynchronous-codec / futures SinkExt)',
+            'the topic set is a ghost Set<Seq<u8>> view of the HashSet<String>; `subs.lock().insert(t.to_string())` / `subs.lock().remove(t)` are assumed expressions with std HashSet semantics (returns whether the set changed)',
+            '`subs.lock().iter().map(closure).collect()` in peer_connected is an assumed expression: one SUBSCRIBE message per topic of the set, each once, in an order of std\'s choosing',
+            '`.unwrap()` on the snapshot send is modelled as "returns only if Ok": that the connect / accept task PANICS when the new peer\'s connection fails right after READY is not part of C13 and not claimed panic-free',
+            'create_subs_message is used through its contract here and verified in unit pubsub (RFC 29 frame: one octet 0x01 / 0x00 + topic)',
+            'precondition of peer_connected: the handshake has put no subscription-shaped message on the new connection (greeting and READY are not Message::Message items)',
+        ],
+        'not_covered': ['races between subscribe / unsubscribe and a background accept or connect (the property\'s "or concurrently with the call")', 'that a peer whose send failed is eventually forgotten (C16)', 'quiescence itself: the contracts speak about the state when a call has returned'],
+    },
     'C03': {
         'units': ['codec', 'handshake', 'pubsub'],
         'scope': [
